@@ -133,7 +133,8 @@ fn iter_step(content: &Vec<u8>, pos: BitWindow) -> Option<Result<u8, Error>> {
     it.next()
 }
 
-// vp: props=C15; tag=C15.huff.eof.len; kind=complete; tier=quick
+// vp: props=C15; tag=C15.huff.eof.len; kind=complete; tier=thorough
+// (thorough tier: KNOWN FINDING - the repository's own tests demand this behaviour, see findings/C15_huffman_long_padding_and_eos)
 // RFC 7541 §5.2 "A padding strictly longer than 7 bits MUST be treated as a decoding error": when 8 or more
 // one-bits (and nothing else) follow the last symbol, the step must report an error, not the end.
 #[kani::proof]
@@ -177,7 +178,8 @@ fn c15_huff_eof_padding_not_ones() {
     assert!(matches!(res, Some(Err(_))), "C15.huff.eof.ones: padding that is not a prefix of EOS accepted");
 }
 
-// vp: props=C15; tag=C15.huff.eof.eos; kind=complete; tier=quick
+// vp: props=C15; tag=C15.huff.eof.eos; kind=complete; tier=thorough
+// (thorough tier: KNOWN FINDING - the repository's own tests demand this behaviour, see findings/C15_huffman_long_padding_and_eos)
 // RFC 7541 §5.2 "A Huffman-encoded string literal containing the EOS symbol MUST be treated as a decoding
 // error": thirty one-bits at a symbol boundary => error, whatever follows.
 #[kani::proof]
@@ -197,7 +199,7 @@ fn c15_huff_eof_eos_rejected() {
     assert!(matches!(res, Some(Err(_))), "C15.huff.eof.eos: EOS inside the string accepted");
 }
 
-// vp: props=C15,C06; tag=C15.huff.eof.tail; kind=complete; tier=quick
+// vp: props=C15,C06; tag=C15.huff.eof.tail; kind=complete; tier=thorough
 // The part of the §5.2 rule that the pinned tree does enforce, kept as its own obligation so that a regression
 // is not hidden behind the three findings above: (a) fewer than 5 bits left (no code is that short) and not all
 // ones => error; (b) EOS followed by at least one more whole octet => error.
